@@ -32,6 +32,14 @@ CHECKS = {
   text="Bounded symbolic model checking with one symbolic boolean per parameter and step for gradient presence (z3 enumerates all pattern sequences): absent parameters keep parameter and every state tensor (same terms, same objects), an all-absent group keeps its step counter, present parameters equal the per-parameter reference run, and every masked per-block list equals the local list compressed by the current selector.",
   note="Trusted: as C01; generic equality regime of the hyperparameters only (special values are C01's); 2-3 parameters with equal-shaped blocks, <=2 groups, T<=3 re-based (quick) / <=5 (thorough); masked-list alignment reads internal attributes.",
   ref="DESIGN.md section 3 C04"),
+ "C09": dict(
+  text="Bounded symbolic model checking, differential: optimizer A runs on the stand-in with symbolic gradients/hyperparameters; at every stop step its real distributed_state_dict() is deep-copied and loaded by the real load_distributed_state_dict() into a freshly constructed optimizer B; parameters and every state tensor of A and B must be equal terms after each remaining step. Key uniqueness (flat keys = state tensors) and strictness of loading (a solver-chosen index removes a flat entry / renames a parameter / changes the group key; loading must raise).",
+  note="Trusted: as C01 (real arithmetic, recording stubs that are functions of their arguments); T<=3 (quick)/4 (thorough); generic equality regime; serial state layout (DTensor layout is exercised in C06); torch.save serialisation outside the claim.",
+  ref="DESIGN.md section 3 C09"),
+ "C13": dict(
+  text="Bounded symbolic model checking with a symbolic outcome per matrix-routine call (success / raise / NaN / Inf result), symbolic gradient presence, NaN gradients and a symbolic integer tolerance N: a per-block reference counter decides on every path whether step() must raise; failed factors keep their matrix; non-finite factors/results raise PreconditionerValueError with all parameters unchanged; stored roots/eigenbases never carry the non-finite marker. Shampoo and SOAP lists.",
+  note="Trusted: recording stubs for the matrix routines; non-finite values as tensor-level markers propagated by every stand-in operation; <=3 refreshes (quick)/<=4 (thorough), N<=3, weight decay/momentum/filtering off.",
+  ref="DESIGN.md section 3 C13"),
 }
 NA = {
  "C18": "the compiled step exists only as TorchDynamo/AOTAutograd output traced over real torch; it cannot be executed on symbolic tensors or translated to SMT within reach",
